@@ -329,7 +329,7 @@ def c12(case, lines):
     tr = Trace(case, lines)
     m = case.get("meta") or {}
     if "L" not in m:
-        return None
+        return c12_per_connection(tr)
     L, Mx, kind = m["L"], m["M"], m["kind"]
     outp = outbound(tr, connection_streams(tr)[0])
     if outp is None:
@@ -359,6 +359,49 @@ def c12(case, lines):
         slot_taken = (not too_big) and kind in ("pub1", "pub2")
         if fits and not slot_taken and any("QuotaExceeded" in r for r in res1):
             return "sideeffect: a rejected or unlimited request consumed a send-quota slot"
+    return None
+
+
+def c12_per_connection(tr):
+    """scripts that connect more than once or announce a limit of their own: the limit in force on a connection is the
+    Maximum Packet Size of THAT connection's CONNACK, and nothing else - not an earlier connection's, not the client's own"""
+    if tr.faulty and not has(tr, "reconnect"):
+        return None
+    specs, fp, done = op_specs(tr), first_polls(tr), tr.done()
+    for conn in connection_streams(tr):
+        Mx, ack_ev = None, None
+        for k in range(conn["first"], conn["last"] + 1):
+            for x in tr.by.get(k, []):
+                mm = re.match(r"C ok .*\bmps==?(\d+|~)", x)
+                if mm:
+                    Mx, ack_ev = (None if mm.group(1) == "~" else int(mm.group(1))), k
+        if ack_ev is None:
+            continue
+        outp = outbound(tr, conn)
+        if outp is None:
+            continue
+        for k, o in outp:
+            if k > ack_ev and Mx is not None and o["len"] > Mx:
+                return "reject: a %s of %d bytes was written on a connection whose CONNACK announced Maximum Packet Size %d" % (o["kind"], o["len"], Mx)
+        for op, sp in specs.items():
+            k0 = fp.get(op)
+            if k0 is None or not (ack_ev < k0 <= conn["last"]):
+                continue
+            res = [r for _, r in done.get(op, [])]
+            refused = any("MaximumPacketSizeExceeded" in r for r in res)
+            if refused and Mx is None:
+                return "accept: operation %d (%s) was refused with MaximumPacketSizeExceeded on a connection whose CONNACK announced no Maximum Packet Size" % (op, sp["kind"])
+            L = None
+            a = sp["args"]
+            if sp["kind"] == "pub" and set(a) <= {"q", "t", "pl"}:
+                L = 2 + 2 + len(a.get("t", "")) // 2 + 1 + len(a.get("pl", "")) // 2 + (2 if a.get("q", "0") != "0" else 0)
+            elif sp["kind"] == "ping":
+                L = 2
+            if L is not None and Mx is not None:
+                if refused and L <= Mx:
+                    return "accept: operation %d (%s, %d bytes) was refused although the CONNACK of its connection announced %d" % (op, sp["kind"], L, Mx)
+                if not refused and L > Mx and res and not any("ContextExited" in r or "SocketClosed" in r for r in res):
+                    return "reject: operation %d (%s, %d bytes) ended with %s although the CONNACK of its connection announced %d" % (op, sp["kind"], L, res, Mx)
     return None
 
 
